@@ -363,7 +363,7 @@ func (*BinaryStringExprNode) GetType() NodeType {
 }
 
 func (node *BinaryStringExprNode) IsSeekable() bool {
-	return (node.op == BinaryOpEQ || node.op == BinaryOpNEQ) &&
+	return node.op == BinaryOpEQ &&
 		(node.left.IsConst() || node.right.IsConst())
 }
 
